@@ -105,6 +105,17 @@ GetProp(h, base, key) ==
             ELSE LET i == IdxOfKey(key) IN IF i >= 0 /\ i < Len(o.e) THEN [ok |-> TRUE, v |-> o.e[i + 1]] ELSE [ok |-> TRUE, v |-> U]
          ELSE LET i == ObjFind(o, key) IN IF i > 0 THEN [ok |-> TRUE, v |-> o.vs[i]] ELSE [ok |-> TRUE, v |-> U]
     [] OTHER -> [ok |-> TRUE, v |-> U]
+\* [[HasProperty]] for the `in` operator: own keys, array indices and length, and what every object inherits from
+\* Object.prototype / Array.prototype (only the names the generators use).  "unmodelled" for generators.
+ObjectProtoNames == {<<116,111,83,116,114,105,110,103>>, <<118,97,108,117,101,79,102>>, <<104,97,115,79,119,110,80,114,111,112,101,114,116,121>>, <<99,111,110,115,116,114,117,99,116,111,114>>}
+ArrayProtoNames == {<<112,117,115,104>>, <<109,97,112>>, <<106,111,105,110>>}
+HasProp(h, base, key) ==
+  LET o == h[base.a] IN
+  IF o.k = "gen" THEN "unmodelled"
+  ELSE IF key \in ObjectProtoNames THEN "t"
+  ELSE IF o.k = "arr" THEN (IF key = LengthKey \/ key \in ArrayProtoNames THEN "t"
+                           ELSE LET i == IdxOfKey(key) IN IF i >= 0 /\ i < Len(o.e) THEN "t" ELSE "f")
+  ELSE IF ObjFind(o, key) > 0 THEN "t" ELSE "f"
 \* [[Set]] in strict mode: returns [r |-> "ok", h |-> heap'] | [r |-> "type"] | [r |-> "unmodelled"]
 SetProp(h, base, key, v) ==
   IF base.t # "ref" THEN [r |-> "type", h |-> h]
@@ -411,7 +422,14 @@ StepRet == LET c == ctl.c IN
                     ELSE IF ~b.mut THEN Go(Ret(Throw(Err("TypeError")))) /\ k' = rest /\ Same
                     ELSE heap' = SetBinding(heap, e, name, v) /\ Go(RetV(v)) /\ k' = rest /\ UNCHANGED <<env, out>>
           [] f.f = "binL" -> Go(Ev(Nd(f.n).b)) /\ k' = <<[f |-> "binR", n |-> f.n, l |-> v]>> \o rest /\ Same
-          [] f.f = "binR" -> LET r == Bin(Nd(f.n).op, f.l, v) IN
+          [] f.f = "binR" /\ Nd(f.n).op = "in" ->
+               \* RelationalExpression in ShiftExpression: the right operand must be an object, the left one is ToPropertyKey'ed
+               IF v.t \in {"fun", "err"} \/ f.l.t \in {"fun", "err"} THEN Go(Ret(Abrupt("unmodelled", U, ""))) /\ k' = rest /\ Same
+               ELSE IF v.t # "ref" THEN Go(Ret(Throw(Err("TypeError")))) /\ k' = rest /\ Same
+               ELSE IF ToPrim(f.l).t = "big" THEN Go(Ret(Abrupt("unmodelled", U, ""))) /\ k' = rest /\ Same
+               ELSE LET r == HasProp(heap, v, KeyOf(heap, f.l)) IN
+                    Go(IF r = "unmodelled" THEN Ret(Abrupt("unmodelled", U, "")) ELSE RetV(B(r = "t"))) /\ k' = rest /\ Same
+          [] f.f = "binR" /\ Nd(f.n).op # "in" -> LET r == Bin(Nd(f.n).op, f.l, v) IN
                              Go(IF r.t = "big" THEN Ret(Abrupt("unmodelled", U, "")) ELSE RetV(r)) /\ k' = rest /\ Same
           [] f.f = "logical" ->
                LET op == Nd(f.n).op
